@@ -82,10 +82,17 @@ static void elog_add(long off, size_t len) {
     if (elog_len + (size_t)n + 1 > elog_cap) { elog_cap = (elog_cap + (size_t)n + 64) * 2; elog = realloc(elog, elog_cap); }
     memcpy(elog + elog_len, b, (size_t)n + 1); elog_len += (size_t)n;
 }
+/* piece log (op `iov`): per emit call F|B <len> : piece lengths */
+static char plog[4096]; static size_t plog_len; static int log_pieces;
 static int w_emit(void *ctx, const flatcc_iovec_t *iov, int iov_count, flatbuffers_soffset_t offset, size_t len)
 {
     ++emit_calls;
     if (fault_emit_at && (emit_calls == fault_emit_at || (fault_rep && emit_calls > fault_emit_at))) { ++faults_fired; return -1; }
+    if (log_pieces && plog_len + 32 + 12 * (size_t)(iov_count > 0 ? iov_count : 0) < sizeof plog) {
+        int i;
+        plog_len += (size_t)snprintf(plog + plog_len, sizeof plog - plog_len, "%s%c%zu:", plog_len ? "," : "", offset < 0 ? 'F' : 'B', len);
+        for (i = 0; i < iov_count; ++i) plog_len += (size_t)snprintf(plog + plog_len, sizeof plog - plog_len, "%s%zu", i ? "+" : "", iov[i].iov_len);
+    }
     elog_add((long)offset, len);
     return flatcc_emitter(ctx, iov, iov_count, offset, len);
 }
@@ -382,6 +389,34 @@ int main(void)
                 putchar(','); p = q + 1;
             }
             putchar('\n');
+            continue;
+        }
+        if (!strcmp(op, "iov") && n >= 5) {
+            /* iov <fill> <clustering> <kind> <args..>: the pieces of every emit call one create_* call makes, with `fill` bytes emitted before */
+            int fill = atoi(toks[1]); flatcc_builder_ref_t r0 = 0, r = 0; const char *kind = toks[3];
+            new_builder(1); elog_len = 0; if (elog) elog[0] = 0;
+            flatcc_builder_set_vtable_clustering(B, atoi(toks[2]));
+            if (fill) { uint8_t *z = calloc(1, (size_t)fill); r0 = flatcc_builder_create_struct(B, z, (size_t)fill, 1); free(z); }
+            plog_len = 0; plog[0] = 0; log_pieces = 1;
+            if (!strcmp(kind, "str")) {
+                size_t len = h_hexlen(toks[4]); uint8_t *d = malloc(len + 1); h_unhex(toks[4], d);
+                r = flatcc_builder_create_string(B, (const char *)d, len); free(d);
+            } else if (!strcmp(kind, "vec") && n >= 7) {
+                size_t esz = (size_t)atol(toks[4]), len = h_hexlen(toks[6]); uint8_t *d = malloc(len + 1); h_unhex(toks[6], d);
+                r = flatcc_builder_create_vector(B, d, esz ? len / esz : 0, esz, (uint16_t)atoi(toks[5]), esz ? 0xffffffffu / esz : 0xffffffffu); free(d);
+            } else if (!strcmp(kind, "ovec")) {
+                size_t cnt = (size_t)atol(toks[4]), i; flatcc_builder_ref_t *refs = malloc((cnt + 1) * sizeof *refs);
+                for (i = 0; i < cnt; ++i) refs[i] = r0;
+                r = flatcc_builder_create_offset_vector(B, refs, cnt); free(refs);
+            } else if (!strcmp(kind, "struct") && n >= 6) {
+                size_t len = h_hexlen(toks[5]); uint8_t *d = malloc(len + 1); h_unhex(toks[5], d);
+                r = flatcc_builder_create_struct(B, d, len, (uint16_t)atoi(toks[4])); free(d);
+            } else if (!strcmp(kind, "vt")) {
+                size_t len = h_hexlen(toks[4]); flatbuffers_voffset_t *vt = malloc(len + 2); h_unhex(toks[4], (uint8_t *)vt);
+                r = flatcc_builder_create_vtable(B, vt, (flatbuffers_voffset_t)len); free(vt);
+            }
+            log_pieces = 0;
+            printf("%s %s\n", r ? "ok" : "fail", plog_len ? plog : "-");
             continue;
         }
         if (!have_B) new_builder(1);
